@@ -32,6 +32,7 @@ package keeper
 //@ ensures [only_authority_starts_minting] err == nil ==> msg.Authority == k.Keeper.authority
 //@ ensures [sets_initialized] err == nil ==> mint.Minter.Initialized && !old(mint.Minter.Initialized)
 //@ ensures [no_change_on_error] err != nil ==> mint.Minter == old(mint.Minter)
+//@ ensures [starting_does_not_set_a_reference_time] err == nil ==> mint.Minter.PreviousBlockTime == old(mint.Minter.PreviousBlockTime) && mint.Minter.BondDenom == old(mint.Minter.BondDenom)
 
 // Minting starts only after governance sends MsgInit: genesis leaves the minter uninitialised and without a
 // previous block time, so the first block after MsgInit mints nothing (C03).
